@@ -221,6 +221,12 @@ func (p *Parser) MergeFile(path string) error {
 		return err
 	}
 
+	// $parent only selects layers; without inheritance it is ignored, not
+	// left in the document as an unknown directive.
+	for _, doc := range f.docs {
+		doc.PopMapValue("$parent")
+	}
+
 	return p.mergeFile(f)
 }
 
